@@ -33,6 +33,11 @@ func checkC02(c *Check) {
 	c02R3(c, R)
 	c02R4(c, R)
 	c02R5(c, R)
+	// the handler that validates and forwards is the matched filter's own (a cached handler of another chain
+	// would validate against another client id / key set and forward under other header names)
+	if pc := processInvoke(P, R); c.Anchor("C02.R5", "Handler.Process invocation in Check", pc != nil) {
+		handlerBuiltPerCheck(c, "C02.R5", R.CheckEntry, pc)
+	}
 }
 
 // c02R5: the key set handed to the validator is the *requesting filter's* key set: every value returned
